@@ -10,9 +10,22 @@ GLOBAL_ASSUMPTIONS = [
 ]
 
 PROPERTIES = {
-    "T": {"contracts": [bases.AxisLoc], "level": "proof"},
+    "C01": {
+        "contracts": [indexing.LocateOne, indexing.LocateMany, indexing.ExpandedIndexer, (bases.AxisLoc, r"^(?!slice-)"),
+                      bases.GetIndices, bases.GetItem, bases.Accessors, bases.ItemForwarding],
+        "level": "proof",
+        "min_obligations": 2000,
+    },
+    "T": {"contracts": [bases.SetItem], "level": "proof"},
+    "C03": {
+        "contracts": [bases.SetItem, indexing.MaybeCastType, (bases.Accessors, r"write|put|setitem"), (bases.ItemForwarding, r"^set"),
+                      (bases.GetIndices, r"^r[01]-")],
+        "level": "proof",
+        "min_obligations": 1500,
+    },
     "C02": {
-        "contracts": [indexing.LocateSlice, (indexing.LocateOne, r"^exact"), (bases.AxisLoc, r"^slice-")],
+        "contracts": [indexing.LocateSlice, (indexing.LocateOne, r"^exact"), (bases.AxisLoc, r"^slice-"),
+                      (bases.GetIndices, r"slice"), (bases.GetItem, r"slice")],
         "level": "proof",
         "min_obligations": 100,
     },
